@@ -27,7 +27,7 @@ class KInst:
                     D=None if self.X is not None else [list(map(float, r)) for r in self.D])
 
 
-def gen_kinst(rng, nmin=2, nmax=10, m=0, labelled=False, kinds=("feat", "lattice", "dup", "mat")):
+def gen_kinst(rng, nmin=2, nmax=10, m=0, labelled=False, kinds=("feat", "lattice", "dup", "mat", "jitter")):
     kind = rng.choice(kinds)
     n = rng.randint(nmin, nmax)
     N = n + m
@@ -37,6 +37,9 @@ def gen_kinst(rng, nmin=2, nmax=10, m=0, labelled=False, kinds=("feat", "lattice
         alphabet = [float(v) for v in rng.sample(range(1, 9), k)] if k else None
         if alphabet and rng.random() < 0.3:
             alphabet.append(0.0)
+        if alphabet and rng.random() < 0.25:
+            # all distances tiny: around the 1e-5 density-bound threshold and far below it
+            alphabet = [v * 10.0 ** rng.choice([-4, -5, -6, -8, -12]) for v in alphabet]
         return KInst("mat", None, gen_matrix(rng, N, alphabet), n, m, None, labels)
     metric = rng.choice(PLAIN_METRICS + (POS_METRICS if kind == "feat" else []))
     pos = metric in POS_METRICS
@@ -44,6 +47,11 @@ def gen_kinst(rng, nmin=2, nmax=10, m=0, labelled=False, kinds=("feat", "lattice
     for _ in range(50):
         if kind == "lattice":
             X = [[float(rng.randint(0, 3)) for _ in range(dim)] for _ in range(N)]
+        elif kind == "jitter":
+            # near-duplicates: every distance is tiny but not zero
+            sc = 10.0 ** rng.choice([-5, -6, -7, -9])
+            base = [rng.random() * 10 for _ in range(dim)]
+            X = [[b + sc * rng.uniform(-1, 1) for b in base] for _ in range(N)]
         elif kind == "dup":
             base = [[rng.random() * 10 for _ in range(dim)] for _ in range(max(1, N // 2))]
             X = [list(rng.choice(base)) for _ in range(N)]
